@@ -50,6 +50,22 @@ func memberIdx(cl *cluster, id primitives.MemberId) int {
 	return -1
 }
 
+// provenVote: the first vote of the NEW_VIEW under construction gets a valid prepared proof of view tv-1 for a new block,
+// and the NEW_VIEW re-proposes that block
+func provenVote(e *guardEnv, h uint64) {
+	b := e.r.adv.newBody(e.r, h, false)
+	pv := e.tv - 1
+	leader := leaderAt(e.cl, h, pv)
+	pr := proofD{present: true, pp: ref(protocol.LEAN_HELIX_PREPREPARE, h, pv, b), ppBy: leader, p: ref(protocol.LEAN_HELIX_PREPARE, h, pv, b)}
+	for i := 0; i < e.cl.nMembers; i++ {
+		if !e.cl.ids[i].Equal(leader) && e.cl.byz[i] {
+			pr.pBy, pr.pModes = append(pr.pBy, e.cl.ids[i]), append(pr.pModes, "")
+		}
+	}
+	e.vds[0].proof = pr
+	e.nv.pp.hash, e.nvBk = hashOfBody(b.body), b
+}
+
 func cmdGuards(args []string) int {
 	fs := flag.NewFlagSet("guards", flag.ExitOnError)
 	outPath := fs.String("out", "guards.ndjson", "")
@@ -200,7 +216,15 @@ func cmdGuards(args []string) int {
 		{"duplicate_voter", func(e *guardEnv) { e.vds[0].sender = e.vds[1].sender }},
 		{"header_other_height", func(e *guardEnv) { e.nv.h++ }},
 		{"header_sig_forged", func(e *guardEnv) { e.nv.mode = "forged" }},
-		{"sender_not_leader", func(e *guardEnv) { e.nv.sender = leaderAt(e.cl, h, e.tv+1); e.nv.ppBy = e.nv.sender }},
+		{"sender_not_leader", func(e *guardEnv) { // signed by another member than the leader of the view (not by the node under test: its own messages are filtered)
+			e.nv.sender = leaderAt(e.cl, h, e.tv+1)
+			if e.nv.sender.Equal(e.n.id) {
+				e.nv.sender = leaderAt(e.cl, h, e.tv+2)
+			}
+			e.nv.ppBy = e.nv.sender
+		}},
+		{"header_type_view_change", func(e *guardEnv) { e.nv.ht = protocol.LEAN_HELIX_VIEW_CHANGE }},
+		{"header_type_preprepare", func(e *guardEnv) { e.nv.ht = protocol.LEAN_HELIX_PREPREPARE }},
 		{"proposal_by_another_member", func(e *guardEnv) { e.nv.ppBy = leaderAt(e.cl, h, e.tv+1) }},
 		{"proposal_sig_forged", func(e *guardEnv) { e.nv.ppMode = "forged" }},
 		{"proposal_other_view", func(e *guardEnv) { e.nv.pp.v++ }},
@@ -209,6 +233,20 @@ func cmdGuards(args []string) int {
 		{"proposal_type_prepare", func(e *guardEnv) { e.nv.pp.ht = protocol.LEAN_HELIX_PREPARE }},
 		{"proposal_hash_of_another_block", func(e *guardEnv) { e.nv.pp.hash = hashOfBody(other(e).body) }},
 		{"block_missing", func(e *guardEnv) { e.nvBk = nil }},
+		// a vote with a VALID prepared proof of view tv-1 (signed by that view's leader and by the other members the adversary holds);
+		// the NEW_VIEW re-proposes the certified block: acceptable.  Then one thing wrong about the re-proposal.
+		{"proven_vote", func(e *guardEnv) { provenVote(e, h) }},
+		{"proven_vote_block_missing", func(e *guardEnv) { provenVote(e, h); e.nvBk = nil }},
+		{"proven_vote_another_block_attached", func(e *guardEnv) { provenVote(e, h); e.nvBk = other(e) }},
+		{"proven_vote_proposal_for_another_block", func(e *guardEnv) {
+			provenVote(e, h)
+			b := other(e)
+			e.nv.pp.hash, e.nvBk = hashOfBody(b.body), b
+		}},
+		{"proven_vote_proof_without_quorum", func(e *guardEnv) {
+			provenVote(e, h)
+			e.vds[0].proof.pBy, e.vds[0].proof.pModes = e.vds[0].proof.pBy[:1], e.vds[0].proof.pModes[:1]
+		}},
 		{"one_vote_with_proof_of_other_instance", func(e *guardEnv) { // a lock "proof" of another instance must not steer the proposal
 			b := other(e)
 			pv := e.tv - 1
@@ -274,6 +312,7 @@ func cmdGuards(args []string) int {
 		share  string
 		blk    *vBlock
 		noBlk  bool
+		padded bool
 	}
 	type sDev struct {
 		name  string
@@ -317,6 +356,8 @@ func cmdGuards(args []string) int {
 		}},
 		{"hash_empty", "P C", func(e *guardEnv, m *simple) { m.rf.hash = primitives.BlockHash{} }},
 		{"share_forged", "C", func(e *guardEnv, m *simple) { m.share = "forged" }},
+		{"share_of_another_member", "C", func(e *guardEnv, m *simple) { m.share = "other" }},
+		{"header_noncanonical", "PP P C", func(e *guardEnv, m *simple) { m.padded = true }},
 	}
 	simpleCase := func(ws []uint64, rotate bool, kind string, pre int, devs []sDev, cached bool) {
 		probe := newCluster(ws, nil, 0, rotate)
@@ -359,17 +400,32 @@ func cmdGuards(args []string) int {
 			name += d.name + "+"
 		}
 		var raw *interfaces.ConsensusRawMessage
+		switch {
+		case m.padded && kind == "PP":
+			raw = r.adv.mkPaddedPP(m.rf, m.sender, m.blk)
+		case m.padded && kind == "P":
+			raw = r.adv.mkPaddedP(m.rf, m.sender)
+		case m.padded && kind == "C":
+			raw = r.adv.mkPaddedC(m.rf, m.sender)
+		}
 		switch kind {
 		case "PP":
+			if raw != nil {
+				break
+			}
 			if m.noBlk {
 				raw = r.adv.mkPP(m.rf, m.sender, m.mode, nil)
 			} else {
 				raw = r.adv.mkPP(m.rf, m.sender, m.mode, m.blk)
 			}
 		case "P":
-			raw = r.adv.mkP(m.rf, m.sender, m.mode)
+			if raw == nil {
+				raw = r.adv.mkP(m.rf, m.sender, m.mode)
+			}
 		case "C":
-			raw = r.adv.mkC(m.rf, m.sender, m.mode, m.share)
+			if raw == nil {
+				raw = r.adv.mkC(m.rf, m.sender, m.mode, m.share)
+			}
 		}
 		r.deliverTo(n, raw, "deliver", "byz", "guard_"+kind+":"+name)
 		if cached {
